@@ -5,8 +5,10 @@ package pfcpiface
 import (
 	"bytes"
 	"fmt"
+	"math/rand"
 	"runtime/pprof"
 	"strings"
+	"sync"
 	"testing"
 	"time"
 
@@ -48,7 +50,7 @@ func c01StartAgents(res *vResult) []*c01Agent {
 	mk("up4", o)
 	o = vDefaultOpts(false, vEnv.addr(4))
 	o.NoDatapath = true
-	o.GrpcTimeout = 30 * time.Millisecond
+	// (the per-request gRPC deadline is a package variable shared by all agents of the process: keep the generous default)
 	mk("bess-down", o)
 	return out
 }
@@ -258,6 +260,129 @@ func TestVerif_C01(t *testing.T) {
 			ag.probe.close()
 		}
 		ag.a.stop(vStopWatchdog)
+	}
+	c01ConfiguredPeer(res)
+}
+
+// c01ConfiguredPeer: the agent itself opens an association towards a configured control-plane peer; whatever that
+// peer answers (its Association Setup Response and heartbeat responses with IE-level mutations), the agent keeps
+// running and still serves another peer. These responses are handled on goroutines of their own.
+func c01ConfiguredPeer(res *vResult) {
+	n := vEnv.pick(240, 12000)
+	for k := 0; k < n; k++ {
+		idx := 9000000 + k
+		if !vEnv.mine(idx) {
+			continue
+		}
+		rng := vEnv.rng("c01p", k)
+		peerIP := vEnv.addr(5)
+		cp, err := c12NewPeer(peerIP+":"+PFCPPort, vEnv.addr(1))
+		if err != nil {
+			res.inconclusive("configured peer socket: " + err.Error())
+			return
+		}
+		var ops []string
+		var opsMu sync.Mutex
+		prng := rand.New(rand.NewSource(rng.Int63())) // the policy runs on the peer's reader goroutine
+		causeRejected := rng.Intn(5) == 0
+		mutate := func(raw []byte) []byte {
+			opsMu.Lock()
+			defer opsMu.Unlock()
+			rng := prng
+			rm, err := vParseRaw(raw)
+			if err != nil || len(rm.IEs) == 0 {
+				return raw
+			}
+			for t := 0; t < 1+rng.Intn(2); t++ {
+				paths := rm.paths()
+				if len(paths) == 0 {
+					break
+				}
+				pth := paths[rng.Intn(len(paths))]
+				tp := rm.typePath(pth)
+				for try := 0; try < 6; try++ {
+					op := []string{"drop", "drop", "empty", "retype", "trunc", "random", "zero", "ones", "nonutf8", "dup", "unknown", "flags"}[rng.Intn(12)]
+					if vMutateIE(rm, pth, op, rng) {
+						ops = append(ops, op+"@"+tp)
+						break
+					}
+				}
+			}
+			return rm.encode()
+		}
+		hbMut := rng.Intn(2) == 0
+		cp.setPolicy(func(m message.Message, nth int) [][]byte {
+			switch q := m.(type) {
+			case *message.AssociationSetupRequest:
+				cause := ie.CauseRequestAccepted
+				if causeRejected {
+					cause = ie.CauseRequestRejected
+				}
+				return [][]byte{mutate(vMarshal(message.NewAssociationSetupResponse(q.SequenceNumber, ie.NewNodeID(cp.nodeID, "", ""), ie.NewCause(cause), ie.NewRecoveryTimeStamp(cp.ts))))}
+			case *message.HeartbeatRequest:
+				b := c12HBResp(cp, q.SequenceNumber)
+				if hbMut {
+					b = mutate(b)
+				}
+				return [][]byte{b}
+			}
+			return nil
+		})
+		o := vDefaultOpts(rng.Intn(4) == 0, vEnv.addr(1))
+		o.Peers = []string{peerIP}
+		o.RespTimeout, o.MaxRetries = 150*time.Millisecond, 1
+		o.HB, o.HBInterval = rng.Intn(2) == 0, 40*time.Millisecond
+		plan := map[string]interface{}{"family": "configured-peer", "up4": o.UP4, "hb": o.HB}
+		res.begin(idx, fmt.Sprintf("c01 configured peer answers with a mutated response (case %d)", k), plan)
+		a, err := vStartAgent(o)
+		if err != nil {
+			cp.close()
+			res.inconclusive("agent start: " + err.Error())
+			return
+		}
+		// the agent's request and the hostile answer
+		seen := cp.waitFor(3*time.Second, func(rx []c12Rx) bool {
+			for _, r := range rx {
+				if _, ok := r.Msg.(*message.AssociationSetupRequest); ok {
+					return true
+				}
+			}
+			return false
+		})
+		if !seen {
+			res.note("configured peer: the agent sent no Association Setup Request within 3 s")
+		}
+		time.Sleep(time.Duration(60+rng.Intn(120)) * time.Millisecond) // heartbeats (if any) and their mutated answers
+		opsMu.Lock()
+		opsNow := append([]string{}, ops...)
+		opsMu.Unlock()
+		plan["ops"] = opsNow
+		res.begin(idx, fmt.Sprintf("c01 configured peer %v", opsNow), plan)
+		res.eval(1)
+		res.event("configured_peer_responses_mutated", 1)
+		if len(opsNow) > 0 {
+			res.distinct(fmt.Sprintf("cfgpeer|%s|hb=%v", opsNow[0], o.HB))
+		}
+		// another peer is still served
+		p, err := vNewPeer(vEnv.addr(7), o.N4)
+		if err == nil {
+			if c01Request(p, p.assocSetup(1), 1) == nil {
+				frame, dump := c01WedgeWitness()
+				if frame != "" {
+					res.violate("C01.R3", frame, "after a configured peer answered with a mutated response, another peer's Association Setup Request is not answered; parked in "+frame, map[string]interface{}{"plan": plan, "goroutine": dump})
+				} else {
+					res.violate("C01.R5", "mute-after configured-peer-response", "after a configured peer answered with a mutated response, another peer's valid Association Setup Request is not answered", map[string]interface{}{"plan": plan})
+				}
+			} else if ok, why := c01Probe(p, 10, k); !ok {
+				res.violate("C01.R4", "other-assoc configured-peer-response", "after a configured peer answered with a mutated response, on another association: "+why, map[string]interface{}{"plan": plan})
+			}
+			p.close()
+		}
+		cp.close()
+		a.stop(vStopWatchdog)
+		if res.nViol() > 60 {
+			break
+		}
 	}
 }
 
@@ -476,29 +601,25 @@ func c01Case(res *vResult, agents []*c01Agent, idx int, forced *c01Plan) {
 	}
 	res.event("probes_same_assoc", 1)
 	if idx%4 == 0 {
-		if ag.probe == nil {
-			ag.probe, _ = vNewPeer(vEnv.addr(250), ag.n4)
-			if ag.probe != nil {
-				c01Request(ag.probe, ag.probe.assocSetup(1), 1)
-				ag.probeSeq = 10
+		// another association, from a socket of its own, set up for this probe only (an idle association of a
+		// heartbeat-enabled agent would be torn down between uses, racing with the probe)
+		if q, err := vNewPeer(vEnv.addr(250), ag.n4); err == nil {
+			if c01Request(q, q.assocSetup(1), 1) == nil {
+				c01NoAnswer(res, ag, "valid Association Setup Request not answered (another association)", &plan)
+				q.close()
+				return
 			}
-		}
-		if ag.probe != nil {
-			// (re-)associate: with heartbeats enabled the idle probe association times out between uses
-			ag.probeSeq++
-			c01Request(ag.probe, ag.probe.assocSetup(ag.probeSeq), ag.probeSeq)
-			ag.probeSeq += 2
-			if ag.probeSeq > 0x600000 {
-				ag.probeSeq = 10
-			}
-			if ok, why := c01Probe(ag.probe, ag.probeSeq, idx); !ok {
+			if ok, why := c01Probe(q, 10, idx); !ok {
 				if strings.HasSuffix(why, "not answered") {
 					c01NoAnswer(res, ag, why+" (another association)", &plan)
+					q.close()
 					return
 				}
 				res.violate("C01.R4", "other-assoc "+plan.Seed, "after the hostile datagram, on another association: "+why, plan)
 			}
 			res.event("probes_other_assoc", 1)
+			q.send(q.assocRelease(90))
+			q.close()
 		}
 	}
 	_ = up4
